@@ -74,11 +74,17 @@ def build_go():
         d = os.path.join(BUILD, "bin-" + fp)
         ergo, ergov, ev = (os.path.join(d, n) for n in ("ergo", "ergo_verif", "ergoverif"))
         if all(os.path.exists(x) for x in (ergo, ergov, ev)):
+            os.utime(d)
             return ergo, ergov, ev
-        # drop stale binaries
+        # drop stale binaries (not those another run — on a different state of the sources — has used within the last half hour)
+        import time as _t
         for n in os.listdir(BUILD):
             if n.startswith("bin-") and n != "bin-" + fp:
-                shutil.rmtree(os.path.join(BUILD, n), ignore_errors=True)
+                try:
+                    if _t.time() - os.path.getmtime(os.path.join(BUILD, n)) > 1800:
+                        shutil.rmtree(os.path.join(BUILD, n), ignore_errors=True)
+                except OSError:
+                    pass
         os.makedirs(d, exist_ok=True)
         ov = write_overlay()
         for out, tags, pkg in ((ergo, [], "./cmd/ergo"), (ergov, ["-tags", "verif", "-overlay", ov], "./cmd/ergo"),
